@@ -386,7 +386,10 @@ func verifyFuncBeh(prog *Program, key string, beh *Behavior) (res *FuncResult) {
 			if j := strings.Index(lab, ":"); j == 1 {
 				kind, lab = lab[:1], lab[2:]
 			}
-			g := ex.specBool(post, c)
+			g, ok := ex.specTry(post, c)
+			if !ok {
+				lab += ":not-evaluable"
+			}
 			ex.curPos = decl.Pos()
 			ex.assert(kind, "ensures["+lab+"]"+suffix, g)
 		}
@@ -401,11 +404,14 @@ func verifyFuncBeh(prog *Program, key string, beh *Behavior) (res *FuncResult) {
 				kind, lab = lab[:1], lab[2:]
 			}
 			post.lenient, post.missing = true, false
-			g := ex.specBool(post, c)
+			g, ok := ex.specTry(post, c)
 			post.lenient = false
 			if post.missing {
 				// the clause names a local that is not in scope at this exit: not applicable here
 				continue
+			}
+			if !ok {
+				lab += ":not-evaluable"
 			}
 			ex.curPos = decl.Pos()
 			ex.assert(kind, "check["+lab+"]"+suffix, g)
@@ -486,7 +492,14 @@ func verifyFuncBeh(prog *Program, key string, beh *Behavior) (res *FuncResult) {
 			continue
 		}
 		if !ex.callsitesUsed[cc] {
-			res.Drift = append(res.Drift, fmt.Sprintf("%s: callsite %q matches no call expression", key, cc.CallText))
+			// the call the clause speaks about is gone: the clause cannot be established on this code
+			kind, lab := "F", cc.Req.Label
+			if j := strings.Index(lab, ":"); j == 1 {
+				kind, lab = lab[:1], lab[2:]
+			}
+			o := &Obl{Name: fmt.Sprintf("%s/%s:callsite[%s]:no-such-call", ex.name, kind, lab), Kind: kind, Pos: cc.Req.Line, PC: True, Goal: False, NFacts: 0, Func: ex.name, FactIdx: -1, FuncKey: res.Name}
+			res.Obls = append(res.Obls, o)
+			res.Warnings = append(res.Warnings, fmt.Sprintf("%s: callsite %q matches no call expression", key, cc.CallText))
 		}
 	}
 	for _, b := range fc.Binds {
